@@ -2895,8 +2895,11 @@ class SFTPClientHandler(SFTPHandler):
             packet = cast(SSHPacket, await self._make_request(
                 b'limits@openssh.com'))
 
-            limits = SFTPLimits.decode(packet)
-            packet.check_end()
+            try:
+                limits = SFTPLimits.decode(packet)
+                packet.check_end()
+            except PacketDecodeError as exc:
+                raise SFTPBadMessage(str(exc)) from None
 
             limits.log(self.logger, 'Received')
 
@@ -3065,8 +3068,11 @@ class SFTPClientHandler(SFTPHandler):
             packet = cast(SSHPacket, await self._make_request(
                 b'statvfs@openssh.com', String(path)))
 
-            vfsattrs = SFTPVFSAttrs.decode(packet, self._version)
-            packet.check_end()
+            try:
+                vfsattrs = SFTPVFSAttrs.decode(packet, self._version)
+                packet.check_end()
+            except PacketDecodeError as exc:
+                raise SFTPBadMessage(str(exc)) from None
 
             self.logger.debug1('Received %s', vfsattrs)
 
@@ -3083,8 +3089,11 @@ class SFTPClientHandler(SFTPHandler):
             packet = cast(SSHPacket, await self._make_request(
                 b'fstatvfs@openssh.com', String(handle)))
 
-            vfsattrs = SFTPVFSAttrs.decode(packet, self._version)
-            packet.check_end()
+            try:
+                vfsattrs = SFTPVFSAttrs.decode(packet, self._version)
+                packet.check_end()
+            except PacketDecodeError as exc:
+                raise SFTPBadMessage(str(exc)) from None
 
             self.logger.debug1('Received %s', vfsattrs)
 
@@ -3310,8 +3319,11 @@ class SFTPClientHandler(SFTPHandler):
                 b'ranges@asyncssh.com', String(handle),
                 UInt64(offset), UInt64(length)))
 
-            result = SFTPRanges.decode(packet)
-            packet.check_end()
+            try:
+                result = SFTPRanges.decode(packet)
+                packet.check_end()
+            except PacketDecodeError as exc:
+                raise SFTPBadMessage(str(exc)) from None
 
             result.log(self.logger, 'Received')
 
